@@ -85,6 +85,25 @@ def finish(ctx, explanation, write=True, quiet=False):
     viol, kn = [], []
     for f in ctx.findings:
         (kn if f.full_key() in known else viol).append(f)
+    # a known finding whose construct moved to another function of the same class (a handler split into helpers, a helper renamed):
+    # the listed key `rule|Class.function|construct` matches nothing any more and exactly one unlisted finding of the same rule has the
+    # same class and the same construct text.  One listed entry covers one site: a second site with the same construct stays a violation.
+    def parts(key):
+        p = key.split('|')
+        return (p[0], p[1].split('.')[0], '|'.join(p[2:])) if len(p) >= 3 and '.' in p[1] else None
+    hit = {f.full_key() for f in kn}
+    moved = {}
+    for k, e in known.items():
+        pk = parts(k)
+        if k in hit or pk is None or not pk[2]:
+            continue
+        same = [f for f in viol if parts(f.full_key()) == pk]
+        if len(same) == 1 and id(same[0]) not in {id(x) for x in moved.values()}:
+            moved[k] = same[0]
+    for k, f in moved.items():
+        viol.remove(f)
+        kn.append(f)
+        known[f.full_key()] = dict(known[k], what='(the construct listed as %s is now found in %s) %s' % (k, f.full_key().split('|')[1], known[k].get('what', '')))
     ev_dir = os.path.join(VERIF, 'evidence')
     lines = []
     seen_known = set()
